@@ -1097,7 +1097,10 @@ pub async fn cmd_tls(args: Vec<String>) -> Result<()> {
             _ => None,
         };
         let topic = format!("/vtls/case{k}");
-        let (connected, registered, detail) = if via == "raw" {
+        let (connected, registered, detail) = if addr.port() == 9 {
+            // this server could not be started (recorded above): nobody can talk to it
+            (false, false, "server is not running".to_string())
+        } else if via == "raw" {
             let trusted_public = read_der(set1.join("client/localhost.der"))?;
             let ident = match (cid, &ident_dir) {
                 ("borrowed_chain_self", _) => Some((vec![read_der(ss_dir.join("client/localhost.der"))?, trusted_public], read_der(ss_dir.join("client/localhost.key.der"))?)),
